@@ -22,6 +22,8 @@ impl Mark for Header {
   /// the existing marked status
   #[inline]
   fn mark(&self) -> bool {
+    #[cfg(feature = "verif")]
+    crate::verif::check_mark_byte(&self.marked as *const AtomicBool as *const u8);
     self.marked.swap(true, Ordering::Release)
   }
 }
@@ -29,6 +31,8 @@ impl Mark for Header {
 impl Marked for Header {
   #[inline]
   fn marked(&self) -> bool {
+    #[cfg(feature = "verif")]
+    crate::verif::check_mark_byte(&self.marked as *const AtomicBool as *const u8);
     self.marked.load(Ordering::Acquire)
   }
 }
@@ -36,6 +40,8 @@ impl Marked for Header {
 impl Unmark for Header {
   #[inline]
   fn unmark(&self) -> bool {
+    #[cfg(feature = "verif")]
+    crate::verif::check_mark_byte(&self.marked as *const AtomicBool as *const u8);
     self.marked.swap(false, Ordering::Release)
   }
 }
